@@ -550,3 +550,78 @@ def totality(tier='quick', seed=0):
             'bounded': {'what': 'rewriting functions total with documented result kinds', 'bound': f'{len(exprs)} expressions incl. every built-in function x {len(shapes)} argument shapes; property corpus',
                         'cases': cases, 'distinct': cases, 'exhaustive': False, 'known_classes': known},
             'samples': [{'call': 'simplify(parse("len([1 to 3]) > 0"))'}]}
+
+
+def sem_axioms_hold(tier='quick', seed=0):
+    """A-SEM validation (bounded): the truth-value semantics of specs/sem.py run natively agrees with the reference
+    evaluator on boolean expressions, and the axioms assumed by the proofs hold natively on the corpus x valuations:
+    stored types do not matter, unmentioned variables do not matter, `len(d) = 0` iff the domain has no members."""
+    from hpl.types import DataType
+    from hpl.ast.expressions import HplQuantifier
+    from hpl.rewrite import empty_test
+    from specs import sem
+    from specs.tree import mentions
+    from specs.typing import with_dt
+    from bounded.corpus import all_nodes
+    rnd = random.Random(seed)
+    exprs = [e for e in _corpus(seed, 600 if tier == 'thorough' else 150, tier)]
+    nodes = all_nodes(exprs)
+    bools = [e for e in nodes if e.data_type == DataType.BOOL]
+    nval = 8 if tier == 'thorough' else 4
+    cases = 0
+    violations = []
+
+    def bad(w, what):
+        if len(violations) < 6:
+            violations.append({'witness': w, 'what': what[:400]})
+    for e in bools:
+        for env in valuations([e], nval, rnd):
+            cases += 1
+            ref = try_eval(e, env)
+            try:
+                mine = ('ok', sem.ev(e, env))
+            except sem.SemError as x:
+                mine = ('err', str(x))
+            if ref[0] == 'ok' and isinstance(ref[1], bool):
+                if mine != ('ok', ref[1]):
+                    bad(f'ev:{e}', f'ev(`{e}`) = {mine} but the reference evaluator gives {ref} under {env}')
+            # A-SEM-1: stored type at the root
+            try:
+                if mine[0] == 'ok' and sem.ev(with_dt(e, DataType.ANY), env) != mine[1]:
+                    bad(f'types:{e}', f'value of `{e}` depends on its stored type')
+            except sem.SemError:
+                pass
+            # A-SEM-2: a fresh variable binding does not matter
+            for v in ('i', 'zz', 'A'):
+                if not mentions(e, v) and mine[0] == 'ok':
+                    try:
+                        if sem.ev(e, sem.bind(env, v, 7)) != mine[1]:
+                            bad(f'frame:{e}', f'value of `{e}` changes when the unmentioned variable {v} is bound')
+                    except sem.SemError:
+                        bad(f'frame:{e}', f'`{e}` fails when the unmentioned variable {v} is bound')
+    # A-SEM-3 on every quantifier domain of the corpus
+    for q in [n for n in nodes if isinstance(n, HplQuantifier)]:
+        try:
+            et = empty_test(q.domain)
+        except Exception:
+            continue
+        for env in valuations([q], nval, rnd):
+            cases += 1
+            try:
+                d = sem.dom(q.domain, env)
+                a = sem.atom(et, env)
+            except sem.SemError:
+                continue
+            if a != (len(d) == 0):
+                bad(f'empty:{q.domain}', f'`{et}` is {a} but the domain `{q.domain}` has {len(d)} members under {env}')
+            for v in ('zz',):
+                try:
+                    if tuple(sem.dom(q.domain, sem.bind(env, v, 7))) != tuple(d):
+                        bad(f'domframe:{q.domain}', f'members of `{q.domain}` change when {v} is bound')
+                except sem.SemError:
+                    pass
+    return {'obligations_n': 0, 'discharged_n': 0, 'violations': violations, 'faults': [],
+            'bounded': {'what': 'semantic axioms A-SEM-1..3 and agreement of specs.sem.ev with the reference evaluator',
+                        'bound': f'{len(bools)} boolean sub-expressions of the corpus x {nval} valuations',
+                        'cases': cases, 'distinct': cases, 'exhaustive': False},
+            'samples': [{'text': 'ev(e, rho) == evaluate(e, rho) for boolean e', 'expected': 'equal'}]}
